@@ -87,6 +87,8 @@ class BaseQPDGate(Instruction):
         if basis_id is not None and basis_id not in range(0, len(self._basis.maps)):
             raise ValueError("Basis ID out of range")
         self._basis_id = basis_id
+        # The definition depends on the basis ID: drop any cached one.
+        self._definition = None
 
     def __eq__(self, other):
         """Check equivalence for QPDGate class."""
